@@ -74,3 +74,40 @@ C(RI + ".Roman", params=SELF, is_property=True, requires=INV + ["consumed(self) 
   }}},
   result="str", serves=["C08"],
   notes="greedy subtraction (code) == per-digit table (spec) for every position >= 1")
+
+
+# ---------------------------------------------------------------------------
+# RepeatDict.__call__ (C08): what getname('repeat')(name, iterable) hands to the emitted loop.
+# The K3 model of tal:repeat (pyvc/k3.py repeat_call) relies on exactly this contract.
+# ---------------------------------------------------------------------------
+RD_EXT = {
+    'list': {'result': 'seq[any]', 'raises_any': True},
+    'iter': {'result': 'any'},
+    'RepeatItem': {'result': 'any', 'as': 'item'},
+}
+C("tal.py::RepeatDict.__call__", params={"self": "any", "key": "str", "iterable": "any"},
+  ensures=[
+      # None repeats nothing; anything else is materialised exactly once, up front
+      "iterable is not None or (result[1] == 0 and ext_index('list') == -1)",
+      "iterable is None or (ext_index('list') == 0 and ext_index('list', 1) == -1 and "
+      "ext_call_arg('list', 0, 0) is iterable and result[1] == len(ext_call_result('list', 0)))",
+      # the loop iterates over that materialised sequence ...
+      "result[0] is ext_call_result('iter', 0) and ext_index('iter', 1) == -1",
+      "iterable is None or ext_call_arg('iter', 0, 0) == ext_call_result('list', 0)",
+      "iterable is not None or len(ext_call_arg('iter', 0, 0)) == 0",
+      # ... and repeat[key] is a RepeatItem over the SAME iterator and length, so that the
+      # position it reports follows the loop
+      "ext_index('item', 1) == -1 and ext_call_arg('item', 0, 0) is result[0] and "
+      "ext_call_arg('item', 0, 1) == result[1]",
+      "ext_index('setitem', 1) == -1 and ext_call_arg('setitem', 0, 0) is self and "
+      "ext_call_arg('setitem', 0, 1) == key and ext_call_arg('setitem', 0, 2) is ext_call_result('item', 0)",
+      "ext_index('setitem') > ext_index('item')",
+  ],
+  raises={'*': {'ensures': ["ext_raised_in('list')", "ext_index('setitem') == -1"]}},
+  result="tuple[any,int]",
+  ghost={'externals': RD_EXT, 'opaque_subscript': True,
+         'harness': ('bounded.repeat_harness', 'repeat_call'),
+         'search': {'generator': ('bounded.repeat_harness', 'gen_iterables')}},
+  serves=["C08", "C01"],
+  notes="list()/iter()/RepeatItem() are events of the ghost trace; a non-iterable operand raises "
+        "whatever list() raises and nothing is registered")
